@@ -80,6 +80,12 @@ def run(res):
                 res.violation('labels(%r) = %s, expected %s' % (s, a, exp_a), {'S': S, 'S0': S0, 'R': rs, 'L': L, 'state': s})
             if (s not in nodes) and b != 'ERR RuntimeError':
                 res.violation('next(%r) of a non-state = %s' % (s, b), {'S': S, 'S0': S0, 'R': rs, 'L': L, 'state': s})
+        for probe in ((0, 1), (), ('n', 'x', 3), 'zz', '', -7, 2.5, frozenset([1]), (nodes[0],)):
+            for what, call in (('labels', lambda: K.labels(probe)), ('next', lambda: K.next(probe))):
+                r = attempt(call)
+                if r != 'ERR RuntimeError':
+                    res.violation('%s(%r) of a non-state gives %s, expected RuntimeError' % (what, probe, r if isinstance(r, str) else 'a value'),
+                                  {'S': S, 'S0': S0, 'R': rs, 'L': L, 'probe': repr(probe)})
         own = set(id(v) for v in K._labels.values())
         snap = canon(K)
         lines.append('KCLONE|%s|%s|%s|%s' % (' '.join(map(str, S)), ' '.join(map(str, S0)), enc_pairs(rs), Lenc))
